@@ -644,7 +644,10 @@ NUMBER_SPELLINGS = [
     "+123456789012345678901234567890", "000123456789012345678901234567890", "-000123456789012345678901234567890",
     "+36893488147419103232", "+18446744073709551616", "0018446744073709551616", "-0018446744073709551616",
     "!!float +5", "!!float 007", "!!float -007", "!!int +7", "!!int 007", "!!float .5", "!!float 1_0", "!!float 123456789012345678901234567890",
-    "!!float +123456789012345678901234567890"]
+    "!!float +123456789012345678901234567890",
+    # other explicit tags: whatever the loader makes of them must serialise and read back equal
+    "!!binary /w==", "!!binary aGVsbG8=", "!!binary \"/w==\"", "!!binary ''", "!!timestamp 2001-12-14", "!!str /w==", "!!null ''", "!!bool yes",
+    "!!merge <<", "!!seq []", "!!map {}"]
 
 
 def spelling_programs(lit):
@@ -906,7 +909,9 @@ def _line(c, o):
                                                         opt_desc(o, "rt"), opt_json(o, "j2"), _b(o, "again"), _b(o, "into_orig"))
     if "skip" in o:
         return None
-    return "(round eval (named 'Environment) %s %s %s %s %s %s)" % (desc_sx(o["orig"]["v"]), opt_json(o, "j1"),
+    main, envs = program_text(c)
+    uses_b64 = "fromBase64" in main or any("fromBase64" in t for t in envs.values())
+    return "(round %s (named 'Environment) %s %s %s %s %s %s)" % ("evalb64" if uses_b64 else "eval", desc_sx(o["orig"]["v"]), opt_json(o, "j1"),
                                                                     opt_desc(o, "rt"), opt_json(o, "j2"),
                                                                     _b(o, "again"), _b(o, "into_orig"))
 
